@@ -207,6 +207,110 @@ def run_call_schedule(ctx, choices, rng, bound):
         d.close()
 
 
+def run_dup_ack_schedule(ctx, side, choices, rng, bound):
+    """The same acknowledgement arrives twice and the two copies are handled
+    by two threads at the same time (two polling requests in flight; the
+    threaded client dispatches every message on its own thread): the callback
+    runs exactly once, and the copy that loses is ignored without error."""
+    sched = SC.ThreadScheduler(
+        choices=choices, rng=rng, preemption_bound=bound,
+        switch_prob=(rng.choice([0.02, 0.05, 0.15]) if rng is not None
+                     else None), max_steps=200000)
+    ns = '/a'
+    fired = []
+    if side == 'client':
+        h = E.SyncClientHarness(client_kw={'reconnection': False})
+        h.api('connect', 'http://x', namespaces=['/', ns])
+        n0 = len(h.sent)
+        h.c.emit('ev', {'i': 1}, namespace=ns,
+                 callback=lambda *a: fired.append(list(a)))
+        pid = [p for p in h.sent[n0:] if p['type'] == R.EVENT][0]['id']
+        frame = R.encode(R.ACK, ns, pid, ['done'])[0]
+
+        def actor():
+            return lambda: h.c._handle_eio_message(frame)
+
+        def errors():
+            return h.all_errors()
+        close = h.close
+    else:
+        d = D.SyncDrive(async_handlers=False, autojoin=False,
+                        namespaces=['/', ns])
+        d.on('connect', lambda sid, env, auth=None: None, ns)
+        t = d.open()
+        t.connect(ns)
+        sid = t.sids[ns]
+        t.drain()
+        d.sio.emit('ev', {'i': 1}, to=sid, namespace=ns,
+                   callback=lambda *a: fired.append(list(a)))
+        pid = [p for p in t.drain() if p['type'] == R.EVENT][0]['id']
+        from engineio import packet as eio_packet
+        frame = R.encode(R.ACK, ns, pid, ['done'])[0]
+
+        def actor():
+            return lambda: t.socket.receive(eio_packet.Packet(
+                eio_packet.MESSAGE, frame))
+
+        def errors():
+            return d.errors()
+        close = d.close
+    try:
+        sched.spawn('ack0', actor())
+        sched.spawn('ack1', actor())
+        SC.enable_lines(sched, _files(side))
+        try:
+            trace = sched.run()
+        finally:
+            SC.disable_lines()
+        ctx.count('duplicate_ack_schedules')
+        wit = {'part': 'dup_ack_race', 'side': side,
+               'choices': [c for _, c in trace], 'bound': bound,
+               'labels': [[a, lbl] for a, lbl in sched.labels][-60:],
+               'callback_invocations': fired}
+        if sched.aborted:
+            SC.report_abort(ctx, sched, wit)
+            return trace
+        errs = list(sched.errors) + errors()
+        if fired != [['done']]:
+            ctx.violation(None, 'the same acknowledgement handled by two '
+                          'threads at the same time invoked the callback %d '
+                          'times' % len(fired), wit)
+            return trace
+        if errs:
+            wit['errors'] = [{'exc': e.get('exc'), 'tb': (e.get('tb') or
+                                                          '')[-1200:]}
+                             for e in errs[:3]]
+            ctx.violation(None, 'the same acknowledgement handled by two '
+                          'threads at the same time: the copy that lost '
+                          'was not ignored quietly (%s)' % errs[0].get('exc'),
+                          wit)
+            return trace
+        ctx.case(('dup_ack_race', side, tuple(c for _, c in trace)[:60]),
+                 None)
+        return trace
+    finally:
+        close()
+
+
+def run_dup_ack_part(ctx, side, seconds):
+    import time
+    t_end = time.time() + seconds
+    choices = []
+    n = 0
+    while choices is not None and time.time() < t_end and \
+            not ctx.too_many_violations():
+        trace = run_dup_ack_schedule(ctx, side, choices, None, 1)
+        n += 1
+        choices = SC.next_schedule(trace)
+    ctx.extra['dup_ack_race_%s' % side] = {
+        'schedules_at_most_1_preemption': n, 'complete': choices is None}
+    k = ctx.shard * 10 ** 6
+    while time.time() < t_end and not ctx.too_many_violations():
+        rng = ctx.case_rng(16 * 10 ** 7 + k)
+        run_dup_ack_schedule(ctx, side, [], rng, None)
+        k += 1
+
+
 def core_jsonable(x):
     from vlib import core
     return core.jsonable(x)
@@ -254,6 +358,9 @@ def run_part(ctx, side, seconds):
 
 def replay(ctx, w):
     wi = w['witness']
+    if wi.get('part') == 'dup_ack_race':
+        return run_dup_ack_schedule(ctx, wi['side'], wi['choices'], None,
+                                    wi.get('bound'))
     if wi.get('part') == 'call_wakeup':
         return run_call_schedule(ctx, wi['choices'], None, wi.get('bound'))
     run_schedule(ctx, wi['side'], wi['choices'], None, wi.get('bound'))
